@@ -41,6 +41,14 @@ Definition p_bound (c : ccase) : bool :=
 Definition p_needed (c : ccase) : bool :=
   forallb (fun n => smemb n (runtime_bound (c_out c))) (runtime_needed (c_src c) (c_out c)).
 
+(* the inserted block tests a bound name.  A source may test `typing.TYPE_CHECKING` after `import typing` only, so the
+   clause is demanded when the result has a block the source did not have (something was moved) *)
+Definition p_tc_name (c : ccase) : bool :=
+  match moved_items (c_stub c) (c_src c) with
+  | [] => true
+  | _ => tc_before (c_out c)
+  end.
+
 (* ---- modelled-libcst assumptions of the theorems, checked on every case *)
 Definition libcst_ok (c : ccase) : bool :=
   embedsb (c_src c) (c_applied c)
@@ -65,7 +73,7 @@ Definition verdict (c : ccase) : nat :=
   if negb (wf_case c) then 3 else
   let sh := kf_shadow (c_stub c) (c_src c) in
   let ex := kf_apply_extra (c_stub c) (c_src c) (c_applied c) in
-  let hard := p_head c && p_under_tc c && p_needed c in
+  let hard := p_head c && p_under_tc c && p_needed c && p_tc_name c in
   let place := p_in_place c && p_bound c in
   let nonew := p_no_new_runtime c in
   if hard && place && nonew then (if model_ok c && libcst_ok c then 0 else 1)
@@ -76,7 +84,8 @@ Definition verdict (c : ccase) : nat :=
 (* which clauses fail, for the report: head, under_tc, no_new_runtime, in_place, bound, needed *)
 Definition clauses (c : ccase) : list bool :=
   [p_head c; p_under_tc c; p_no_new_runtime c; p_in_place c; p_bound c; p_needed c;
-   model_ok c; libcst_ok c; kf_shadow (c_stub c) (c_src c); kf_apply_extra (c_stub c) (c_src c) (c_applied c)].
+   model_ok c; libcst_ok c; kf_shadow (c_stub c) (c_src c); kf_apply_extra (c_stub c) (c_src c) (c_applied c);
+   p_tc_name c].
 
 (* the clause vector as one number (leading 1, then one bit per clause, first clause = most significant) *)
 Definition clause_code (c : ccase) : nat :=
